@@ -25,6 +25,7 @@ type oracle struct {
 	errOf   bool     // results are (pointer, error) and exactly one of them is nil
 	okOf    bool     // results are (pointer, ok) and ok is true exactly when the pointer is non-nil
 	args    []int    // which arguments the recorded effect captures (nil = all)
+	fatalIfFalse bool // (tbFatal functions) the callee fails the test itself when its result is false
 }
 
 type fnSpec struct {
@@ -46,6 +47,7 @@ type fnSpec struct {
 	errChan      bool // errors are reported by sending on errCh (recorded as effects), not returned
 	loop         bool // translate one iteration of the receive loop inside the function (see translate)
 	uses         map[string]bool // translated functions this one calls (filled while translating)
+	tbFatal      bool              // the function reports by t.Fatalf; its translation returns whether it passed
 	joins        bool              // translate the code after a branching statement once, as a local join point (see tryJoin)
 	selfRec      bool              // the function calls itself: the generated definition takes the function to call as its first argument (`self`)
 	extConsts    map[string]string // constants of package constants the function names -> their value (checked against constants/const.go)
@@ -763,7 +765,31 @@ var ribTableSpecs = []fnSpec{
 	tableAddSpec("AddNextHop", "addNextHop", "*aftpb.Afts_NextHopKey", "NHEntryC", "nhExists", "retrieveNH", "doAddNH", "*aft.Afts_NextHop", "3"),
 }
 
+var chkSpecs = []fnSpec{
+	{
+		file: "chk/chk.go", goName: "HasResultsCache", callAs: "HasResultsCache", leanName: "hasResultsCache", tbFatal: true, joins: true,
+		params: []param{
+			{goName: "t", goType: "testing.TB", lean: "t", kd: kStr, skip: true},
+			{goName: "res", goType: "[]*client.OpResult", lean: "res", kd: kind{k: "list", s: "COpResult", elemNN: true}},
+			{goName: "wants", goType: "[]*client.OpResult", lean: "wants", kd: kind{k: "list", s: "COpResult", elemNN: true}},
+			{goName: "opt", goType: "...resultOpt", lean: "opt", kd: kStr, skip: true},
+		},
+		goRets: "", rets: []string{"bool"},
+		oracleParams: []param{
+			{goName: "§ignoreOpID", lean: "ignoreOpID", kd: kBool},
+			// HasResult(t, res, want, opt...) as a test: true = it returns normally
+			{goName: "§hasResult", lean: "hasResult", kd: kind{k: "fun", t: []kind{kBool, kind{k: "list", s: "COpResult", optElems: true}, kPtr("COpResult")}}},
+		},
+		oracles: map[string]oracle{
+			"hasIgnoreOperationID": {results: []string{"§ignoreOpID"}},
+			"HasResult":            {results: []string{"§hasResult@1,2"}, fatalIfFalse: true},
+		},
+		typeMap: map[string]string{"client.OpResult": "COpResult"},
+	},
+}
+
 func init() {
+	specs = append(specs, chkSpecs...)
 	specs = append(specs, ribTableSpecs...)
 	specs = append(specs, ribTableDelSpecs...)
 	specs = append(specs, ribRefSpecs...)
